@@ -90,7 +90,17 @@ def programs(draw, max_depth=4):
         stmts.append(gen_list(draw, g, 2))
     elif final == "kv":
         x = g.fresh_here(draw) or "z"
-        stmts.append(["for", [["iter", x, gen_list(draw, g, 1)]], ["yieldkv", ["bin", "*", ["var", x], ["int", 1]], ["bin", "+", ["var", x], ["int", draw(st.integers(0, 3))]]]])
+        src = gen_list(draw, g, 1)
+        g.push()
+        g.declare(x, "int")
+        key = draw(st.sampled_from([["bin", "*", ["var", x], ["int", 1]], ["bin", "-", ["var", x], ["bin", "*", ["int", 2], ["call", ["var", "-"], [["int", 0]]]]],
+                                    ["if", ["bin", "<", ["var", x], ["int", 2]], ["int", 0], ["int", 1]], ["if", ["bin", "<", ["var", x], ["int", 1]], ["str", "lo"], ["str", "hi"]]]))
+        val = ["bin", "+", ["var", x], ["int", draw(st.integers(0, 3))]]
+        fold = draw(st.sampled_from([None, None, "sum", "count", "max", "min", "first", "last", "any", "all", "any", "all"]))
+        if fold is not None:
+            val = ["seq", [["print", [["str", "v"], ["var", x]]], draw(st.sampled_from([val, ["bin", "<", ["int", 2], ["var", x]], ["bin", "-", ["var", x], ["int", 1]], gen_int(draw, g, 1)]))], False]
+        g.pop()
+        stmts.append(["for", [["iter", x, src]], ["yieldkv", key, val, fold]])
     return ["seq", stmts, final == "none"]
 
 
@@ -166,7 +176,7 @@ def gen_int(draw, g, d):
         body = gen_int(draw, g, d - 1)
         g.pop()
         return ["for", [["iter", x, ["bin", "++", src, ["list", [["int", 1]]]]]],
-                ["yield", body, draw(st.sampled_from(["sum", "count", "max", "min", "first", "last"]))]]
+                ["yield", body, draw(st.sampled_from(["sum", "count", "max", "min", "first", "last", "any", "all"]))]]
     if k == "index":
         lst = gen_list(draw, g, d - 1)
         return ["index", ["bin", "++", lst, ["list", [["int", 7]]]], ["int", draw(st.sampled_from([0, -1]))]]
@@ -284,7 +294,9 @@ def gen_for(draw, g, d, kind):
             if draw(st.integers(0, 3)) == 0:
                 n = draw(st.integers(0, g.loops - 1))
                 if draw(st.booleans()):
-                    esc = ["break", n, draw(st.sampled_from([None, ["list", [["int", 42]]], ["int", 7]]))]
+                    # a list value may only leave THIS (list-valued) loop: carried further out it would become the value of an
+                    # enclosing loop that the generator treats as int-valued (lists order lexicographically, the reference has ints only)
+                    esc = ["break", n, draw(st.sampled_from([None, ["list", [["int", 42]]], ["int", 7]] if n == 0 else [None, ["int", 7]]))]
                 else:
                     esc = ["continue", n]
                 yexpr = ["if", gen_int(draw, g, 1), esc, yexpr]
